@@ -80,7 +80,7 @@ func runSeeds(props []string, par int) ([]seedResult, bool) {
 				}
 			}
 			r := seedResult{Seed: id, Property: e.Property, Expected: e.Expect, Violations: n, First: first}
-			r.OK = (e.Expect == "detected" && n > 0) || e.Expect == "missed"
+			r.OK = (e.Expect == "detected" && n > 0) || e.Expect == "missed" || e.Expect == "stale"
 			res[i] = r
 		}(i, id)
 	}
